@@ -92,25 +92,28 @@ def collect_trajectories(
         rewards.append(reward[jnp.newaxis])
 
         obs = jnp.copy(next_obs)
+        if "final_obs" in info:
+            # a finished episode is bootstrapped from its own final observation,
+            # not from the first observation of the next episode (with or
+            # without a logger)
+            for env_idx, finished in enumerate(info["_final_obs"]):
+                if finished:
+                    obs = obs.at[env_idx].set(info["final_obs"][env_idx])
         if logger is not None and "episode" in info:
-            finished_reward_len_obs = [
-                (env_idx, r, l, o)
-                for env_idx, (r, l, o, f) in enumerate(
-                    zip(
-                        info["episode"]["r"],
-                        info["episode"]["l"],
-                        info["final_obs"],
-                        info["_episode"],
-                        strict=True,
-                    )
+            finished_reward_len = [
+                (r, l)
+                for r, l, f in zip(
+                    info["episode"]["r"],
+                    info["episode"]["l"],
+                    info["_episode"],
+                    strict=True,
                 )
                 if f
             ]
-            for env_idx, r, l, o in finished_reward_len_obs:
+            for r, l in finished_reward_len:
                 global_step += int(l)
                 logger.record_stat("return", float(r), step=global_step)
                 logger.start_new_episode()
-                obs = obs.at[env_idx].set(o)
 
         next_value = critic(obs).flatten()
         terminated_arr.append(terminated[jnp.newaxis])
